@@ -212,4 +212,52 @@ theorem lmWeights_col {n m p p' : Nat} (L LB : Mat ℝ m m) (A : Mat ℝ m n) (R
   intro t ht
   rw [hcol t (Finset.mem_range.mp ht)]
 
+/-! ### the shared second half of `_LandmarksConditional.__init__` (`lmCore`), without uncertainty -/
+
+/-- Scaling the right-hand side by `a` and moving the prior mean to `a·mu + b` maps the prediction affinely. -/
+theorem lmCore_affine {n m d c : Nat} {cov : Cov ℝ} {xu : Mat ℝ m d} {mu jitter : ℝ} {L : Mat ℝ m m}
+    {A : Mat ℝ m n} {R : Mat ℝ n c} {LLB? : Except CondErr (Mat ℝ m m)} {sU : Sigma ℝ n} {ycfU : Option (AnyMat ℝ)}
+    {s : CondState ℝ m d c} (R' : Mat ℝ n c) (a b : ℝ)
+    (h : lmCore cov xu mu jitter L A R LLB? sU ycfU false = .ok s)
+    (hR : ∀ i k, i < n → k < c → R'.el i k = a * R.el i k) :
+    ∃ s', lmCore cov xu (a * mu + b) jitter L A R' LLB? sU ycfU false = .ok s'
+      ∧ ∀ (xq : List ℝ) (col : Nat), col < c → s'.mean1 xq col = a * s.mean1 xq col + b := by
+  obtain ⟨LLB, LB, hLLB, hLB, _, _, _, _, _, _, _⟩ := lmCore_ok h
+  subst hLLB
+  rw [lmCore_false_eq cov xu mu jitter L A R sU ycfU hLB] at h
+  have hs := (Except.ok.inj h).symm; subst hs
+  refine ⟨_, lmCore_false_eq cov xu (a * mu + b) jitter L A R' sU ycfU hLB, ?_⟩
+  intro xq col hcol
+  have hw := lmWeights_smul L LB A a R R' hR
+  simp only [CondState.mean1, nsum_eq_sum]
+  have : ∑ j ∈ range m, cov.k xq (xu.row j) * (lmWeights L LB A R').el j col
+      = a * ∑ j ∈ range m, cov.k xq (xu.row j) * (lmWeights L LB A R).el j col := by
+    rw [Finset.mul_sum]
+    apply Finset.sum_congr rfl
+    intro j hj
+    rw [hw j col (Finset.mem_range.mp hj) hcol]; ring
+  rw [this]; ring
+
+/-- Each value column is treated on its own. -/
+theorem lmCore_col {n m d c c' : Nat} {cov : Cov ℝ} {xu : Mat ℝ m d} {mu jitter : ℝ} {L : Mat ℝ m m}
+    {A : Mat ℝ m n} {R : Mat ℝ n c} {R' : Mat ℝ n c'} {LLB? : Except CondErr (Mat ℝ m m)} {sU : Sigma ℝ n}
+    {ycfU : Option (AnyMat ℝ)} {s : CondState ℝ m d c} {s' : CondState ℝ m d c'}
+    (h : lmCore cov xu mu jitter L A R LLB? sU ycfU false = .ok s)
+    (h' : lmCore cov xu mu jitter L A R' LLB? sU ycfU false = .ok s')
+    (j j' : Nat) (hj : j < c) (hj' : j' < c') (hcol : ∀ i, i < n → R.el i j = R'.el i j') :
+    ∀ xq : List ℝ, s.mean1 xq j = s'.mean1 xq j' := by
+  obtain ⟨LLB, LB, hLLB, hLB, _, _, _, _, _, _, _⟩ := lmCore_ok h
+  subst hLLB
+  rw [lmCore_false_eq cov xu mu jitter L A R sU ycfU hLB] at h
+  rw [lmCore_false_eq cov xu mu jitter L A R' sU ycfU hLB] at h'
+  have hs := (Except.ok.inj h).symm; subst hs
+  have hs' := (Except.ok.inj h').symm; subst hs'
+  intro xq
+  have hw := lmWeights_col L LB A R R' j j' hj hj' hcol
+  simp only [CondState.mean1]
+  congr 1
+  apply nsum_congr
+  intro t ht
+  rw [hw t ht]
+
 end Mellon
